@@ -423,7 +423,7 @@ pub fn c14_adjacency_map_bicliques() {
 }
 
 // AdjacencyList::complete(5) with 2 worker threads (chunks of 3 and 2 rows).
-// @verif prop=C14 tier=quick fl=f2 role=complete-threads/adjacency-list t=1500 mem=14
+// @verif prop=C14 tier=quick fl=f2 role=complete-threads/adjacency-list t=1500 mem=14 par=2
 #[cfg_attr(kani, kani::proof)]
 #[cfg_attr(kani, kani::unwind(10))]
 pub fn c14_complete_threads_n5_t2() {
